@@ -86,7 +86,8 @@ class Profile:
     shuffle_sections: float = 0.3
     crlf: float = 0.25
     big_numbers: float = 0.05
-    resolutions: tuple = (192, 192, 480, 96, 960, 100, 1, 2, 3, 7, 333, 1000)
+    resolutions: tuple = (192, 192, 480, 96, 960, 100, 1, 2, 3, 7, 333, 1000,
+                          1920, 19200, 1921, 1929, 4800, 9600, 1001, 19)   # the usual ones with a digit more or less
     meta_fields: float = 0.35
     tricky_text: float = 0.4
     phrases: float = 0.6
@@ -240,10 +241,10 @@ def rand_src(rng: random.Random, prof: Profile | None = None) -> ChartSrc:
         if rng.random() < 0.2:
             # a second signature line on the same tick (same or another numerator, with / without the exponent): two events
             up = tss[-1][1] if rng.random() < 0.6 else rng.randint(1, 16)
-            tss.append((t, up, rng.choice([None, 0, 2, 3, 5, tss[-1][2]])))
+            tss.append((t, up, rng.choice([None, 0, 2, 3, 5, tss[-1][2], 7, 8, 16, 31, 62])))
             continue
         t += rng.randint(0, last + 500)
-        tss.append((t, rng.randint(1, 16), rng.choice([None, 0, 2, 3, 5])))
+        tss.append((t, rng.randint(1, 16), rng.choice([None, 0, 2, 3, 5, 6, 7, 10, 63])))
     anchors = [(rng.randint(0, last + 100), rng.randint(0, 10**8)) for _ in range(rng.choice([0, 0, 0, 1, 2]))]
     if rng.random() < 0.3:
         # an anchor sitting on a tempo line's tick, with a time of its own (a little or a lot off the tempo-map time)
